@@ -620,6 +620,11 @@ func corpusTA(cfg *config) []string {
 	for _, c := range []string{"Fuel Level (%) *OBD", "Oil Temp (C) *OBD", " *OBD", "Altitude (km)"} {
 		ops = append(ops, "dec mut "+hexStr("# Vehicle: Car\n\"Time\",\"Lap\",\"OBD_Update\",\"Engine Speed (RPM) *OBD\",\""+c+"\"\n0.000,0,1,1155.500,42.0\n0.010,0,0,1155.500,43.5\n# Session End\n"))
 	}
+	// garbage in one of two columns that state the same quantity
+	for _, v := range []string{"9x7", "", "97 ft", "abc"} {
+		ops = append(ops, "dec mut "+hexStr("Time,Lap,Altitude (m),Altitude (ft),Speed (Km/h),Speed (MPH)\n0.000,0,29.6,97,10.0,6.2\n0.010,0,29.6,"+v+",10.0,6.2\n"))
+		ops = append(ops, "dec mut "+hexStr("Time,Lap,Altitude (ft),Altitude (m),Speed (Km/h),Speed (MPH)\n0.000,0,97,29.6,10.0,6.2\n0.010,0,97,29.6,10.0,"+v+"\n"))
+	}
 	for _, v := range []string{"0.010x", "0.", "1e1", "0,5"} {
 		ops = append(ops, "dec mut "+hexStr("Time,Lap\n0.000,0\n"+v+",0\n"))
 	}
